@@ -25,7 +25,7 @@ type Profile struct {
 }
 
 func weighted(w map[string]int) []string {
-	order := []string{"resolve", "reserr", "state", "pick", "done", "adv", "failnew", "cancel", "allready", "bindflow", "decall", "readyrepl", "staledown", "emptypool", "saturate", "refreshcycle", "stalede", "affswap", "fbflow", "bindacross", "growmax", "multibind", "fillwm", "affburst", "flaprefresh", "rrempty", "rrstraddle", "unbindrace", "resurrect", "rrwrap", "rrdead"}
+	order := []string{"resolve", "reserr", "state", "pick", "done", "adv", "failnew", "cancel", "allready", "bindflow", "decall", "readyrepl", "staledown", "emptypool", "saturate", "refreshcycle", "stalede", "affswap", "fbflow", "bindacross", "growmax", "multibind", "fillwm", "affburst", "flaprefresh", "rrempty", "rrstraddle", "unbindrace", "resurrect", "rrwrap", "rrdead", "fbtwice"}
 	var out []string
 	for _, k := range order {
 		for i := 0; i < w[k]; i++ {
@@ -381,6 +381,33 @@ func genStep(p *Profile, cfg *Config) *rapid.Generator[[]Op] {
 					Op{K: "pick", M: 2, Key: key}, Op{K: "pick", M: 2, Key: key})
 			}
 			return ops
+		case "fbtwice":
+			// two outages of the same home channel: the first served by stand-in S (its calls stay open, S is the busier one
+			// afterwards), the second by another stand-in T; then S fails while T stays READY: the key must stay on T
+			key := rapid.IntRange(0, 3).Draw(t, "fk")
+			down := func(l string) int { return rapid.SampledFrom([]int{3, 1, 0}).Draw(t, l) }
+			var ops []Op
+			for i := 0; i < 6; i++ {
+				ops = append(ops, Op{K: "state", Idx: i, St: 2})
+			}
+			ops = append(ops, Op{K: "pick", M: 1, Key: key}, Op{K: "done", Idx: -1, Out: 0},
+				Op{K: "state", Sel: 5, Key: key, St: down("d1")},
+				Op{K: "pick", M: 2, Key: key}, Op{K: "pick", M: 2, Key: key},
+				Op{K: "state", Sel: 5, Key: key, St: 2},
+				Op{K: "pick", M: 2, Key: key}, Op{K: "done", Idx: -1, Out: 0},
+				Op{K: "state", Sel: 5, Key: key, St: down("d2")},
+				Op{K: "pick", M: 2, Key: key})
+			switch rapid.IntRange(0, 2).Draw(t, "then") {
+			case 0, 1: // the former stand-in (channel of the second most recent open call) fails
+				ops = append(ops, Op{K: "state", Sel: 7, Idx: -2, St: down("d3")})
+			case 2: // the former stand-in is refreshed and shut down
+				ops = append(ops, Op{K: "state", Sel: 7, Idx: -2, St: 4})
+			}
+			ops = append(ops, Op{K: "pick", M: 2, Key: key}, Op{K: "pick", M: 2, Key: key})
+			if rapid.Bool().Draw(t, "homeback") {
+				ops = append(ops, Op{K: "state", Sel: 5, Key: key, St: 2}, Op{K: "pick", M: 2, Key: key})
+			}
+			return ops
 		case "multibind":
 			// a BIND whose response carries several keys, some of them bound already; then the keys are used
 			k1 := rapid.IntRange(0, 3).Draw(t, "mk1")
@@ -578,7 +605,7 @@ var Profiles = map[string]*Profile{
 	"detector": {Name: "detector", Min: [2]int{1, 3}, Max: [2]int{1, 3}, WM: []int{100, 100, 2}, UdMs: []int64{0, 1, 7, 100, 60000, 1 << 31, 1<<32 - 1}, UdCalls: []int{0, 1, 1, 2, 2, 3, 4, 1 << 31, 1<<32 - 1}, Strict: 50, Shutdown: true, RR: 20,
 		W: map[string]int{"resolve": 1, "state": 5, "pick": 8, "done": 8, "adv": 4, "failnew": 3, "allready": 2, "decall": 24, "readyrepl": 10, "refreshcycle": 10, "stalede": 8, "rrstraddle": 4}, Methods: []int{0, 0, 2, 1}},
 	"fallback": {Name: "fallback", Min: [2]int{2, 4}, Max: [2]int{2, 4}, WM: []int{1, 2, 3}, Fallback: 100, UdMs: []int64{0, 7, 100}, UdCalls: []int{1}, Strict: 50,
-		W: map[string]int{"resolve": 1, "state": 8, "pick": 20, "done": 6, "adv": 1, "allready": 3, "bindflow": 10, "decall": 5, "readyrepl": 6, "staledown": 6, "saturate": 2, "fbflow": 16, "affswap": 2, "bindacross": 1, "resurrect": 4}, Methods: []int{0, 2, 2, 2, 2, 5, 3, 1}},
+		W: map[string]int{"resolve": 1, "state": 8, "pick": 20, "done": 6, "adv": 1, "allready": 3, "bindflow": 10, "decall": 5, "readyrepl": 6, "staledown": 6, "saturate": 2, "fbflow": 16, "affswap": 2, "bindacross": 1, "resurrect": 4, "fbtwice": 6}, Methods: []int{0, 2, 2, 2, 2, 5, 3, 1}},
 	"rr": {Name: "rr", Min: [2]int{1, 6}, Max: [2]int{1, 6}, WM: []int{1, 2, 100}, Fallback: 20, UdMs: []int64{0, 7, 100}, UdCalls: []int{1}, RR: 100, Strict: 50, Shutdown: true,
 		W: map[string]int{"rrwrap": 3, "rrdead": 4, "emptypool": 1, "resolve": 1, "state": 12, "pick": 30, "done": 8, "adv": 4, "cancel": 4, "allready": 3, "decall": 3, "readyrepl": 4, "staledown": 5, "saturate": 1}, Methods: []int{1, 1, 1, 1, 4, 0, 2}},
 	"addresses": {Name: "addresses", Min: [2]int{1, 3}, Max: [2]int{1, 4}, WM: []int{1, 2}, UdMs: []int64{7, 100}, UdCalls: []int{1}, Strict: 30, Shutdown: true,
